@@ -235,8 +235,20 @@ def check_expanding(case, ctx):
     n = lay(case["n"], shp)
     coords = (e, n) + ((np.zeros(shp),) if case["extra"] else ())
     sizes = case["sizes"]
-    res = vd.expanding_window(tuple(build.present(c, case.get("container")) for c in coords), tuple(case["center"]), sizes)
-    ctx.check(len(res) == len(sizes), "one index set per size expected (%d), got %d", len(sizes), len(res))
+    # "sizes : array": a list, a tuple, an array; a one-shot iterator is not promised, so it may be refused - but not answered wrongly
+    form = ["list", "tuple", "array", "iterator", "list"][build.small_hash(case, 9) % 5]
+    sizes_arg = {"list": list, "tuple": tuple, "array": lambda v: np.array(v, dtype="float64"), "iterator": lambda v: iter(list(v))}[form](sizes)
+    pcoords = tuple(build.present(c, case.get("container")) for c in coords)
+    if form == "iterator":
+        try:
+            res = vd.expanding_window(pcoords, tuple(case["center"]), sizes_arg)
+        except Exception:  # noqa: BLE001
+            ctx.label("sizes_iterator_refused")
+            ctx.nt(False)
+            return
+    else:
+        res = vd.expanding_window(pcoords, tuple(case["center"]), sizes_arg)
+    ctx.check(len(res) == len(sizes), "one index set per size expected (%d sizes given as %s), got %d", len(sizes), form, len(res))
     exact = case["mode"] == "lattice"
     cx, cy = fr(case["center"][0]), fr(case["center"][1])
     fe = [fr(v) for v in e.ravel()]
@@ -262,7 +274,7 @@ def check_expanding(case, ctx):
             for sb, b in sets:
                 if sa <= sb:
                     ctx.check(a <= b, "windows are not nested: size %r selects points that size %r does not", sa, sb)
-    ctx.label(case["mode"], "ndim%d" % e.ndim, "sizes%d" % len(sizes))
+    ctx.label(case["mode"], "ndim%d" % e.ndim, "sizes%d" % len(sizes), "sizes_as_" + form)
     if sorted(sizes) != sizes:
         ctx.label("unordered_sizes")
     ctx.nt(len({len(s) for _, s in sets}) >= 2)
